@@ -7,6 +7,7 @@ import (
 
 	"verif/mc/internal/common"
 	"verif/mc/internal/e1"
+	"verif/mc/internal/e4"
 	"verif/mc/internal/prog"
 )
 
@@ -172,7 +173,7 @@ func expectedIgScopes(b *e1.IgBase, base []baseDiag, v *e1.IgVariant, tokens []s
 // C07: @ignore suppresses exactly the diagnostics in its scope that match its codes.
 func C07(tier common.Tier) int {
 	run := common.NewRun("C07", tier, "model_checking")
-	run.SetRule("state = (base program, diagnostic d of the base, placement of one @ignore comment relative to d, code list). Each state is rendered and analysed by the real analyzers; the observed set must equal base minus {diagnostics inside the reference scope (computed from go/parser on the variant: file / declaration span / statement span incl. nested block / the single line) that match the list by ALL>category>code}, with TONL01/PKGO01 moving to the next unsuppressed use. Non-trivial = the reference removes or moves at least one diagnostic.",
+	run.SetRule("state = (base program, diagnostic d of the base, placement of one @ignore comment relative to d, code list). Each state is rendered and analysed by the real analyzers; the observed set must equal base minus {diagnostics inside the reference scope (computed from go/parser on the variant: file / declaration span / statement span incl. nested block / the single line) that match the list by ALL>category>code}, with TONL01/PKGO01 moving to the next unsuppressed use. Non-trivial = the reference removes or moves at least one diagnostic. Plus: comments after which nothing follows (end of a function body, end of file; nothing outside the comment's declaration may change) on the plain base and on the base with an inert file-level marker in every file; and a fixed program with exact expectations in which trailing comments stand on lines whose reported position a //line directive moved (smaller / larger line, beyond the end of the file, into another file); all under both parse orders.",
 		"all diagnostics of the base programs (16 codes; statement-start and mid-statement anchors; function level, nested, package level; declaring and using package; two files) x 9 placements x 17 code lists")
 	run.Assume("base verdicts are judged by C01-C05; here only the difference is judged", "scopes follow the property statement: file / following declaration / following statement / own line")
 	run.NotJudged("what a stand-alone comment that is the last thing in a function body covers INSIDE that declaration (nothing follows it; outside the declaration nothing may change, and that is judged)", "stand-alone comments before struct fields, case clauses or specs inside a grouped declaration")
@@ -346,6 +347,7 @@ func C07(tier common.Tier) int {
 		}
 	})
 	c07Dangling(run, bases)
+	c07LineDirectives(run)
 	return run.Finish()
 }
 
@@ -452,6 +454,28 @@ func c07Dangling(run *common.Run, bases []*e1.IgBase) {
 						}
 					}
 				}
+			}
+		}
+	}
+}
+
+// c07LineDirectives: a fixed program with exact expectations — trailing comments under //line directives cover their
+// own source line and nothing else, in both parse orders.
+func c07LineDirectives(run *common.Run) {
+	p := e4.IgnoreUnderLineDirectives()
+	for _, rev := range []bool{false, true} {
+		res, err := prog.RunOrder(p, prog.Opts{}, rev)
+		if err != nil {
+			common.Fatalf("line-directive fixture: %v", err)
+		}
+		for _, pk := range p.Pkgs {
+			got, want := e4.KeysOf(res.Diags, pk.Path), e4.Wants(p, pk.Path)
+			run.State(1, strings.Join(got, "|"), fmt.Sprintf("line-directives|%s|%v", pk.Path, rev))
+			if strings.Join(got, "|") != strings.Join(want, "|") || res.Panic != "" {
+				missing, extra := diffKeys(want, got)
+				run.Report(common.Cex{Sig: fmt.Sprintf("ignore-line-directive|lost=%s|gained=%s", codesOf(missing), codesOf(extra)),
+					Summary: fmt.Sprintf("trailing @ignore comments under //line directives (reversed parse order: %v): should be reported but are not %v; should be suppressed but are reported %v %s", rev, missing, extra, res.Panic),
+					Detail:  map[string]any{"program": p.Text()}})
 			}
 		}
 	}
